@@ -606,7 +606,67 @@ def _spaces(tier):
     return cl, 2, rel, None
 
 
+def dtype_roots(tier):
+    """Integer-valued mean curves handed over as integer arrays (round 6): the verdicts depend on the values of
+    a curve, not on the NumPy type that holds them."""
+    out = []
+    for a0 in ((3, 6, 9) if tier == "quick" else (3, 4, 5, 6, 7, 9, 12)):
+        for base in (1, 2):
+            out.append(dict(part="dtype", a0=a0, base=base))
+    return out
+
+
+DTYPE_STDS = (0.1, 0.2, 0.3, 0.45, 0.5, 0.7, 1.0)
+DTYPE_TYPES = ("int64", "int32", "int16", "uint8")
+
+
+def _run_dtype(root, ctx):
+    a0, base = root["a0"], root["base"]
+    freq = np.geomspace(0.1, 10.0, 41)
+    for p in (8, 14, 20, 26, 32):           # f0 = 0.25, 0.5, 1.0, 2.0, 4.0 Hz (every threshold band of table vi)
+        m = [base] * len(freq)
+        m[p] = a0
+        half = (a0 + base) // 2
+        m[p - 1] = m[p + 1] = max(half, base)
+        for sd in DTYPE_STDS:
+            std = np.full(len(freq), sd)
+            ref_m = np.array(m, dtype=float)
+            outs = {}
+            for fname, call in (("clarity", lambda mc: sesame.clarity(np.array(freq), mc, np.array(std), 0.05,
+                                                                      search_range_in_hz=(None, None), verbose=0)),
+                                ("reliability", lambda mc: sesame.reliability(30.0, 20, np.array(freq), mc,
+                                                                              np.array(std),
+                                                                              search_range_in_hz=(None, None),
+                                                                              verbose=0))):
+                def run(mc):
+                    try:
+                        with contextlib.redirect_stdout(io.StringIO()):
+                            return ("ok", np.asarray(call(mc), dtype=float).tolist())
+                    except Exception as e:      # noqa: BLE001 - compared like a result
+                        return ("raised", type(e).__name__)
+                want = run(np.array(ref_m))
+                ctx.count("transitions")
+                for tname in DTYPE_TYPES:
+                    got = run(np.array(m, dtype=tname))
+                    ctx.count("transitions")
+                    ctx.count("dtype_calls_compared")
+                    if got != want:
+                        ctx.violation(f"C16:{fname}:verdicts-depend-on-the-array-type", root,
+                                      detail=dict(function=fname, frequency=freq.tolist(), mean_curve=m,
+                                                  std_curve=sd, dtype=tname),
+                                      expected=want, observed=got,
+                                      explanation="the same curve values held in an integer array give other "
+                                                  "verdicts than held in a float64 array")
+                outs[fname] = want
+            ctx.count("states")
+            ctx.count("validated")
+            ctx.nontrivial_case(f"dtype|{outs}")
+
+
 def run_root(root, ctx, tier):
+    if root.get("part") == "dtype":
+        _run_dtype(root, ctx)
+        return
     if root.get("grids"):
         # two grids with equal length and end points, one after the other in the same process
         for g in root["grids"]:
@@ -823,6 +883,7 @@ def roots(tier, seed):
                 out.append(dict(grid=grids[0], grids=grids, f0=f0, second="none", range=rng))
     out.extend(end_roots(tier))
     out.extend(tie_roots(tier))
+    out.extend(dtype_roots(tier))
     return out
 
 
@@ -962,4 +1023,8 @@ def describe(tier):
             "sigma_A(f) = exp(std_curve(f)); a mean*sigma_A^(+-1) curve without interior peak fails criterion iv",
             "criterion iv: both peaks strictly between 0.95 f0 and 1.05 f0 (5 % of f0, the peak of the MEAN curve)",
             "a search range is the set of frequencies between its two limits: (high, low) selects what (low, high) "
-            "selects (hvsrpy sorts the limits); a missing limit (None) is positional and is not turned round"])
+            "selects (hvsrpy sorts the limits); a missing limit (None) is positional and is not turned round",
+            "family 'dtype' (round 6): integer-valued mean curves (peak 3..12 over a base of 1 or 2, f0 in every "
+            "band of the threshold table, seven constant std curves) handed over as int64 / int32 / int16 / uint8 "
+            "arrays must give the verdicts (or the refusal) of the same values in a float64 array - a differential "
+            "oracle; the float64 verdicts of these particular curves are not re-derived"])
